@@ -427,7 +427,46 @@ def r06_7(ctx):
     ctx.decide('R06.7', gh.qual, 'geometry Hessian term: -sum hess(G_m)[e,u] J[a,m] J[e,i] J[u,j]', ok or None, gh.node, 'formula (A.12) with the corrected sign')
 
 
+def r06_9(ctx):
+    """Constant folding decides x*1 -> x, x+0 -> x, 0*y -> 0 through ConstExpr.is_constant / is_zero.  The rewrite preserves
+    the value only if that predicate means equality up to rounding: its tolerance must be absolute and tiny (<= 1e-12)."""
+    m = ctx.prog.func(VF + '.ConstExpr.is_constant')
+    rets = [r for r in guards.returns_of(m.node) if r.value is not None]
+    if not rets:
+        ctx.undecided('R06.9', m.qual, 'tolerance of the constant test', m.node, 'no return value')
+        return
+    for r in rets:
+        v = r.value
+        calls = [c for c in ast.walk(v) if isinstance(c, ast.Call) and (call_name(c) or '').split('.')[-1] in ('isclose', 'allclose')]
+        if calls:
+            c = calls[0]
+            tol = {}
+            for kw in c.keywords:
+                if kw.arg in ('rtol', 'atol', 'rel_tol', 'abs_tol') and isinstance(kw.value, ast.Constant):
+                    tol[kw.arg] = kw.value.value
+            fn = call_name(c)
+            if fn.startswith('math.'):
+                rt, at = tol.get('rel_tol', 1e-9), tol.get('abs_tol', 0.0)
+            else:
+                rt, at = tol.get('rtol', 1e-5), tol.get('atol', 1e-8)
+            ok = rt <= 1e-12 and at <= 1e-12
+            ctx.decide('R06.9', m.qual, src(r), ok, r,
+                       'is_constant(c) drives the folding rules 0*y -> 0, 1*y -> y, x/-1 -> -x; %s with rtol=%g, atol=%g treats literals that '
+                       'differ from 0 or +-1 by up to that much as equal and folds them away' % (fn, rt, at), definite=True)
+            continue
+        cmp_ = [c for c in ast.walk(v) if isinstance(c, ast.Compare) and len(c.ops) == 1]
+        if len(cmp_) == 1 and isinstance(cmp_[0].ops[0], (ast.Lt, ast.LtE)) and isinstance(cmp_[0].comparators[0], ast.Constant) \
+                and isinstance(cmp_[0].comparators[0].value, float) and 'abs(' in src(cmp_[0].left):
+            eps = cmp_[0].comparators[0].value
+            ctx.decide('R06.9', m.qual, src(r), eps <= 1e-12, r, 'absolute tolerance %g of the constant test' % eps, definite=True)
+        elif len(cmp_) == 1 and isinstance(cmp_[0].ops[0], ast.Eq):
+            ctx.met('R06.9', m.qual, src(r), r, 'exact comparison')
+        else:
+            ctx.undecided('R06.9', m.qual, src(r), r, 'form of the constant test not recognised')
+
+
 def run(ctx):
+    r06_9(ctx)
     r06_7(ctx)
     r06_1(ctx)
     r06_2(ctx)
@@ -435,3 +474,6 @@ def run(ctx):
     r06_4(ctx)
     r06_5(ctx)
     r06_6(ctx)
+    # R06.8 = R08.4: every variable is computed before its uses, in the phase (precompute / kernel) where its inputs exist
+    import rules.C08 as c08
+    ctx.shared(c08.r08_4, 'R08.4', 'R06.8')
